@@ -118,6 +118,12 @@ def programs():
                               fn("f", "int", [("int", "a"), ("float", "x")], [("return", B("+", B("*", ("call", "pick", [V("a")]), I(10)), ("call", "pick", [V("x")])))])], inputs={"a": "int", "x": "float"})
     out["call.param-after-call"] = P([fn("g", "int", [("int", "x"), ("int", "y")], [("assign", V("x"), "=", I(0)), ("assign", V("y"), "=", I(0)), ("return", I(5))], export=False),
                                       fn("f", "int", ii, [("decl", "int", "r", ("call", "g", [V("b"), V("a")])), ("return", B("+", B("*", V("a"), I(1000)), B("+", B("*", V("b"), I(10)), V("r"))))])], inputs={"a": "0..9", "b": "0..9"})
+    out["call.struct-by-value"] = P([fn("g", "int", [("S", "s")], [("assign", ("fld", "s", "x"), "=", I(100)), ("return", B("+", ("fld", "s", "x"), ("fld", "s", "y")))], export=False),
+                                     fn("f", "int", ii, [("decl", "S", "s", None), ("assign", ("fld", "s", "x"), "=", V("a")), ("assign", ("fld", "s", "y"), "=", V("b")), ("decl", "int", "r", ("call", "g", [V("s")])),
+                                                         ("return", B("+", B("*", V("r"), I(1000)), ("fld", "s", "x")))])], structs=[("S", [("int", "x"), ("int", "y")])], inputs={"a": "0..9", "b": "0..9"})
+    out["call.array-by-value"] = P([fn("g", "int", [(("arr", "int", (2,)), "t")], [("assign", ("idx", "t", [I(0)]), "=", I(100)), ("assign", ("idx", "t", [I(1)]), "+=", I(1)), ("return", B("+", ("idx", "t", [I(0)]), ("idx", "t", [I(1)])))], export=False),
+                                    fn("f", "int", ii, [("decl", ("arr", "int", (2,)), "t", None), ("assign", ("idx", "t", [I(0)]), "=", V("a")), ("assign", ("idx", "t", [I(1)]), "=", V("b")), ("decl", "int", "r", ("call", "g", [V("t")])),
+                                                        ("decl", "int", "q", ("call", "g", [V("t")])), ("return", B("+", B("*", B("+", V("r"), V("q")), I(1000)), B("+", B("*", ("idx", "t", [I(0)]), I(10)), ("idx", "t", [I(1)]))))])], inputs={"a": "0..9", "b": "0..9"})
     # --- globals
     out["global.rw"] = P([fn("f", "int", [("int", "a")], [("assign", V("g"), "=", B("+", V("g"), V("a"))), ("assign", V("h"), "=", B("*", V("g"), I(2))), ("return", B("-", V("h"), V("a")))])],
                          globals_=[("int", "g"), ("int", "h")], inputs={"a": "int", "@g": "int", "@h": "int"})
@@ -126,6 +132,19 @@ def programs():
                                    globals_=[("int", "g")], inputs={"a": "int", "@g": "int"})
     out["global.array"] = P([fn("f", "int", [("int", "i"), ("int", "a")], [("assign", ("idx", "ga", [V("i")]), "+=", V("a")), ("return", B("+", ("idx", "ga", [I(0)]), ("idx", "ga", [I(1)])))])],
                             globals_=[(("arr", "int", (2,)), "ga")], inputs={"i": "0..1", "a": "int", "@ga": "arr2"})
+    A2g = ("arr", "int", (2,))
+    out["global.array-assigned-to-local"] = P([fn("f", "int", [("int", "x")], [("decl", A2g, "r", None), ("assign", V("r"), "=", V("ga")), ("assign", ("idx", "r", [I(0)]), "=", V("x")),
+                                                                              ("return", B("+", B("*", ("idx", "ga", [I(0)]), I(100)), ("idx", "r", [I(0)])))])],
+                                              globals_=[(A2g, "ga")], inputs={"x": "0..9", "@ga": "arr2"})
+    out["global.array-assigned-from-local"] = P([fn("f", "int", [("int", "x")], [("decl", A2g, "r", None), ("assign", ("idx", "r", [I(0)]), "=", V("x")), ("assign", V("ga"), "=", V("r")), ("assign", ("idx", "r", [I(0)]), "=", I(99)),
+                                                                                ("assign", ("idx", "r", [I(1)]), "+=", I(1)), ("return", B("+", B("*", ("idx", "ga", [I(0)]), I(100)), ("idx", "r", [I(0)])))])],
+                                                globals_=[(A2g, "ga")], inputs={"x": "0..9", "@ga": "arr2"})
+    out["global.array-through-call"] = P([fn("get", A2g, [], [("return", V("ga"))], export=False),
+                                          fn("f", "int", [("int", "x")], [("decl", A2g, "r", ("call", "get", [])), ("assign", ("idx", "r", [I(1)]), "=", V("x")), ("return", B("+", B("*", ("idx", "ga", [I(1)]), I(100)), ("idx", "r", [I(1)])))])],
+                                         globals_=[(A2g, "ga")], inputs={"x": "0..9", "@ga": "arr2"})
+    out["local.struct-copy"] = P([fn("f", "int", ii, [("decl", "S", "s", None), ("decl", "S", "t", None), ("assign", ("fld", "s", "x"), "=", V("a")), ("assign", V("t"), "=", V("s")), ("assign", ("fld", "t", "x"), "=", V("b")),
+                                                      ("assign", ("fld", "s", "y"), "=", I(7)), ("return", B("+", B("*", ("fld", "s", "x"), I(100)), B("+", B("*", ("fld", "t", "x"), I(10)), ("fld", "t", "y"))))])],
+                                 structs=[("S", [("int", "x"), ("int", "y")])], inputs={"a": "0..9", "b": "0..9"})
     # --- optimiser patterns (store immediately followed by a load, chains, loads feeding branches / members / calls)
     out["opt.chain"] = P([fn("f", "int", [("int", "a")], [("decl", "int", "x", None), ("decl", "int", "y", None), ("decl", "int", "z", None), ("assign", V("x"), "=", V("a")), ("assign", V("y"), "=", V("x")),
                                                           ("assign", V("z"), "=", V("y")), ("return", B("+", V("z"), V("x")))])], inputs={"a": "int"})
@@ -299,7 +318,7 @@ def _run_program(R, oid, name, prog, options, minimal, fn):
 def _mk(kind, part, parts):
     options = {"optimize": True} if kind == "optimize" else {}
     minimal = kind == "grouping"
-    props = {"scalar": ["C01", "C03", "C05", "C12"], "optimize": ["C02", "C14", "C05"], "grouping": ["C08", "C01"]}[kind]
+    props = {"scalar": ["C01", "C03", "C05", "C12", "C15"], "optimize": ["C02", "C14", "C05"], "grouping": ["C08", "C01"]}[kind]
 
     @family(f"E2E.{kind}.{part}", props=props,
             functions=["nsl.Compiler::Compiler.Compile", "nsl.parser::NslParser.Parse", "nsl.passes.ComputeTypes::ComputeTypeVisitor", "nsl.passes.AddImplicitCasts::AddImplicitCastVisitor",
